@@ -125,7 +125,16 @@ func divergence(a, b []event) int {
 
 // checkRun applies the per-run clauses that need no reference: nothing runs
 // inside a killed context or beyond a limit.
-func checkInternal(o *obs, add func(clause, by, detail string)) (ranAfter bool) {
+func checkInternal(o *obs, l uint64, add func(clause, by, detail string)) (ranAfter bool) {
+	if o.status != "gopanic" && (o.leaked || o.ctxLimit != l) {
+		// Control did not return to the parent: the context handed back is not
+		// the one that was pushed for this call.  Everything else about this
+		// run is a consequence.
+		add("context-stack-corrupted", "-",
+			fmt.Sprintf("CallContext was asked for a context with hard cpu limit %d; it returned a context with hard cpu limit %d and the runtime is %s afterwards",
+				l, o.ctxLimit, map[bool]string{true: "STILL INSIDE a pushed context", false: "back in its root context"}[o.leaked]))
+		return true
+	}
 	for i, e := range o.ev {
 		if e.killed || e.over {
 			what := "a context of the chain already had status killed"
@@ -184,7 +193,10 @@ func sweep(p program, unit *code.Unit) (res sweepResult) {
 	if !ref.sameAs(&ref2) {
 		add("nondeterministic", firstEmitTag(ref2.ev, divergence(ref.ev, ref2.ev)), "two reference runs differ; second: "+ref2.brief())
 	}
-	checkInternal(&ref, add)
+	condemnedRef := checkInternal(&ref, refL, add)
+	if condemnedRef {
+		return
+	}
 	if !p.infinite && ref.status != "done" {
 		add("reference-run-"+ref.status, "-", "the run under a limit of 2^40 must complete")
 		return
@@ -226,7 +238,7 @@ func sweep(p program, unit *code.Unit) (res sweepResult) {
 		if !o.sameAs(&o2) {
 			add("nondeterministic", firstEmitTag(o2.ev, divergence(o.ev, o2.ev)), "two runs at the same L differ; second: "+o2.brief())
 		}
-		ranAfter := checkInternal(&o, add)
+		ranAfter := checkInternal(&o, l, add)
 		expectKilled := p.infinite || l <= u
 		d := divergence(o.ev, ref.ev)
 		isPrefix := d == len(o.ev)
@@ -297,9 +309,18 @@ func sweep(p program, unit *code.Unit) (res sweepResult) {
 		curL, curRel, curObs = maxKilled, relToU(maxKilled, u, p.infinite), &ref
 		add("not-monotone", "-", fmt.Sprintf("done at L=%d but killed at the larger L=%d", minDone, maxKilled))
 	}
-	if p.infinite && ref.status != "killed" && !intercepted {
+	if p.infinite && ref.status != "killed" && ref.status != "gopanic" {
+		// The workload loop can only have been left through a caught kill; the
+		// first emit after the last workload event is whoever caught it.
 		curL, curRel, curObs = refL, relToU(refL, u, true), &ref
-		add("verdict:L<=u-not-killed:"+ref.status, "-", "the program never terminates, so every limit must kill")
+		last := -1
+		for i, e := range ref.ev {
+			if e.tag == "w" {
+				last = i
+			}
+		}
+		add("kill-intercepted", firstEmitTag(ref.ev, last+1),
+			fmt.Sprintf("the program never terminates, so every limit must kill; instead the workload loop was left after event #%d and the run ends %s", last, ref.status))
 	}
 	res.sig = fmt.Sprintf("%s|%d|%s|%s", p.shape(), ref.used, strings.Join(ref.evStrings(), ";"), verd.String())
 	return
@@ -348,26 +369,30 @@ func minimise(p program, id string) program {
 		_, ok := sweepMemo(q).findings[id]
 		return ok
 	}
-	for changed := true; changed; {
-		changed = false
-		for i := range p.nest {
-			q := p
-			q.nest = append(append([]int{}, p.nest[:i]...), p.nest[i+1:]...)
-			if has(q) {
-				p, changed = q, true
-				break
+	for again := true; again; {
+		again = false
+		for changed := true; changed; {
+			changed = false
+			for i := range p.nest {
+				q := p
+				q.nest = append(append([]int{}, p.nest[:i]...), p.nest[i+1:]...)
+				if has(q) {
+					p, changed = q, true
+					break
+				}
 			}
 		}
-	}
-	for _, g := range gransNamed("vm", "fmt") {
-		if g == p.gran {
-			break
-		}
-		q := p
-		q.gran = g
-		if has(q) {
-			p = q
-			break
+		for _, g := range gransNamed("vm", "fmt") {
+			if g == p.gran {
+				break
+			}
+			q := p
+			q.gran = g
+			if has(q) {
+				// a simpler granularity may allow dropping more wrappers
+				p, again = q, true
+				break
+			}
 		}
 	}
 	return p
